@@ -4,7 +4,8 @@ PART 1 (inline select hub, E-seq).  A real Scheduler(startInThread=False, thread
 calling its own run() on the calling thread (which is made the scheduler's thread).  recoco.time is a
 virtual clock, SelectHub._select_func / recoco.select a virtual select that advances the clock to the next
 readiness / timer instant and ends the run (sets scheduler._hasQuit) when nothing can ever happen again (the
-explicit horizon), pox.lib.util.makePinger a counting fake.  Programs: every ORDERED tuple of 2 (quick) / 2-3
+explicit horizon); the hub's pinger is the library's own (pox.lib.util.make_pinger -> PipePinger) on a virtual os.pipe
+(pox.lib.util.os rebound to VOs).  Programs: every ORDERED tuple of 2 (quick) / 2-3
 (thorough) entities, an entity being a task (a generator script of <= 3 yields over the vocabulary OPS) or a
 Timer variant, within a cap on the total number of yields (see inline_suites); environment choices (fd
 readiness instant per selecting task - all explored; the scheduler's _random for the priority-0.5 task and the
@@ -22,6 +23,11 @@ only noticed because the hub's polling interval expires counts as lost.
 PART 3.  The hub's alternative select function, pox.lib.epoll_select.EpollSelect, against select.select on real
 local sockets, every short sequence of calls.
 
+PART 4.  The inline hub's wake-up pipe between two idles: large programs of the same grammar (N tasks started at once, a
+task woken N times, N sleepers, N timers, next to a waiter) with N over a boundary lattice around the multiples of the
+pinger's read size (1024) and around a pipe's capacity (65536); a read of the empty pipe / a write to the full one on the
+scheduler thread is a hang (see VOs, run_ping_part).
+
 Oracle (parts 1, 2) = invariants on the recorded trace (task, step, virtual time, thread), see World:
 steps in program order, one at a time, on the scheduler thread; a task is never in the ready queue twice or while
 it runs (also with several tasks of priority < 1 and runs of high random draws); a timed wake never before the
@@ -37,9 +43,10 @@ through two levels of sub-task calls; a Send resumes its task once, with the byt
 socket complete and in order whatever each send() accepted; a Recv hands over the next bytes of the stream or None
 after its timeout.
 
-Debugging aids: --only inline | inline:N (every N-th program) | threaded | threaded:K | epoll.
+Debugging aids: --only inline | inline:N (every N-th program) | suite:K (K-th inline suite) | threaded | threaded:K | pinger | epoll.
 """
 import gc, itertools, sys, threading, time, queue
+import os as _real_os
 from mc.engine import explore, pmap, Ctx, Divergence
 from mc.report import Report
 
@@ -60,7 +67,9 @@ MAX_SELECTS = 300
 # op -> (kind, argument, description)
 OPS = {
   "0":   ("resched", None, "yield 0"),
+  "0f":  ("resched", 0.0, "yield 0.0"),
   "n1":  ("num", 1, "yield 1"),
+  "n-1": ("num", -1, "yield -1"),
   "n.5": ("num", 0.5, "yield 0.5"),
   "S2":  ("sleep", 2, "yield Sleep(2)"),
   "S1":  ("sleep", 1, "yield Sleep(1)"),
@@ -116,7 +125,7 @@ OPS = {
 RAISE_KIND = {"E": "Exception", "S": "SystemExit", "G": "GeneratorExit", "K": "KeyboardInterrupt", "B": "other BaseException"}
 OPS_QUICK = ("0", "n1", "S2", "SN", "F", "Se", "Se1", "Av", "As", "Ar", "Ae", "W", "X", "!")
 OPS_NESTED = ("Nv", "Nc", "Nu", "Ncs", "Nus")
-OPS_EXTRA = ("S1", "S0", "n.5", "Se0", "Asr", "Ase", "TF", "TFr") + OPS_NESTED + ("Tx", "Txs", "Rx", "Rx1", "Sa-1", "Sa0", "Sa1")      # thorough, in the programs of few yields
+OPS_EXTRA = ("S1", "S0", "n.5", "0f", "n-1", "Se0", "Asr", "Ase", "TF", "TFr") + OPS_NESTED + ("Tx", "Txs", "Rx", "Rx1", "Sa-1", "Sa0", "Sa1")      # thorough, in the programs of few yields
 # quick: the nested sub-task calls and the zero-timeout Select in a small context vocabulary
 OPS_NESTED_CTX = ("0", "n1", "S2", "Se0", "SN", "W", "!", "TF") + OPS_NESTED
 # sleeps whose deadline has passed / is now when the scheduler executes them, in a small context vocabulary
@@ -173,6 +182,65 @@ TIMERS = {
 TIMER_RAISES = {"cbx": "E", "cbxS": "S", "reccbx": "E"}
 TIMER_ORDER = ("once", "rec2", "pre", "selfc", "nostop")
 
+# The constructor-parameter lattice of Timer: periods {0, 0.0, 0.5, 2} next to the 1 of the variants above, relative and
+# absolute (now-1, now, now+1, started=False) times, recurring timers stopped on their n-th call by the callback returning
+# False / by the callback cancelling them / by nobody but the callback's return value being ignored (selfStoppable=False),
+# callbacks that need the args / kw they were registered with.
+#   spec -> dict(period, absolute (offset from the construction instant, or "T0+1"), stop (n, "false"|"cancel"|"nostop"),
+#                slow (seconds the callback takes), args, parked)
+def _tp (period=1, absolute=None, stop=None, slow=0, args=False, parked=False):
+  return dict(period=period, absolute=absolute, stop=stop, slow=slow, args=args, parked=parked)
+TPARAM = {
+  "once0":      _tp(period=0),
+  "once.5":     _tp(period=0.5),
+  "once2":      _tp(period=2),
+  "rec0":       _tp(period=0, stop=(3, "false")),
+  "rec0f":      _tp(period=0.0, stop=(3, "false")),
+  "rec0c":      _tp(period=0, stop=(3, "cancel")),
+  "spin0":      _tp(period=0, stop=(5, "false"), slow=0.5),
+  "nostop0":    _tp(period=0, stop=(3, "nostop")),
+  "rec.5":      _tp(period=0.5, stop=(3, "false")),
+  "rec2s":      _tp(period=2, stop=(2, "false")),
+  "abs-1":      _tp(absolute=-1),
+  "abs0":       _tp(absolute=0),
+  "abs1":       _tp(absolute=1),
+  "parkedabs":  _tp(absolute="T0+1", parked=True),
+  "parked0rec": _tp(period=0, stop=(3, "false"), parked=True),
+  "args":       _tp(args=True),
+  "recargs":    _tp(stop=(2, "false"), args=True),
+}
+def _tp_text (spec):
+  p = TPARAM[spec]
+  a = ["now%+d" % p["absolute"] if isinstance(p["absolute"], int) else "T0+1" if p["absolute"] else repr(p["period"]), "cb"]
+  if p["absolute"] is not None: a.append("absoluteTime=True")
+  if p["stop"]: a.append("recurring=True")
+  if p["stop"] and p["stop"][1] == "nostop": a.append("selfStoppable=False")
+  if p["args"]: a.append("args=(token,), kw={'k': token}")
+  if p["parked"]: a.append("started=False")
+  t = "Timer(%s)" % ", ".join(a)
+  if p["parked"]: t += ", start()ed later by a task"
+  if p["args"]: t += ", cb requires them"
+  if p["slow"]: t += ", cb takes %s s" % p["slow"]
+  if p["stop"]:
+    n, how = p["stop"]
+    t += {"false": ", cb returns False on its %d. call", "cancel": ", cb cancels the timer on its %d. call",
+          "nostop": ", cb returns False, cancels on its %d. call"}[how] % n
+  return t
+for _s, _p in TPARAM.items():
+  TIMERS[_s] = (bool(_p["stop"]), _p["stop"][0] if _p["stop"] else 1, _tp_text(_s))
+TIMERS_PARAM = tuple(TPARAM)
+# tasks next to these timers: reschedule (yield 0 / 0.0) / sleep 1, 2, -1 / start() the parked timers (/ cancel the timers: added by ProgSpace)
+OPS_TPARAM = ("0", "0f", "n1", "n-1", "S2", "St")
+# violation-key class per timer variant (one defect, one key: a recurring timer of period 0 is one class however it is stopped)
+def timer_key (spec):
+  p = TPARAM.get(spec)
+  if p is None: return spec
+  if p["stop"] and not p["period"]: return "recurring-period-0"
+  if p["absolute"] is not None: return "absolute-time"
+  if p["args"]: return "callback-args"
+  if p["stop"]: return "recurring-period-%s" % p["period"]
+  return "one-shot-period-%s" % p["period"]
+
 
 def scripts (ops, maxlen):
   """All scripts of <= maxlen yields; a terminal op only in last position.  Grouped by length."""
@@ -187,12 +255,13 @@ class ProgSpace (object):
   """Every ordered tuple of nent entities (task script over ops, or Timer variant) whose scripts have <= maxlen
   yields each and <= total yields together, addressable by index (nothing is materialised).  "C" (cancel the
   timers) is only in the vocabulary of programs that contain a Timer (elsewhere it would be `yield 0`)."""
-  def __init__ (self, ops, nent, total, maxlen=3, timers=True, prios=False):
+  def __init__ (self, ops, nent, total, maxlen=3, timers=True, prios=False, need_timer=False):
     by_plain = scripts(ops, maxlen)
     by_c = scripts(tuple(ops) + ("C",), maxlen)
     shapes = []
     def rec_shape (k, left, acc):
       if k == nent:
+        if need_timer and not any(e[0] == "T" for e in acc): return      # (a suite about timers: task-only programs are in the others)
         shapes.append(tuple(acc)); return
       for tv in (TIMER_ORDER if timers is True else timers or ()):
         rec_shape(k + 1, left, acc + [("T", tv)])
@@ -243,8 +312,9 @@ def prog_text (prog):
     if e[0] == "T":
       out.append("E%d: %s" % (i, TIMERS[e[1]][2]))
     else:
-      out.append("E%d: task (%s, priority %s) [%s]" % (i, "Task subclass" if i == 0 else "Task(target=...)", prio_of(i, e),
-                                                       "; ".join(OPS[o][2] for o in e[1]) or "returns at once"))
+      out.append("E%d: task (%s, priority %s%s) [%s]" % (i, "Task subclass" if i == 0 else "Task(target=...)", prio_of(i, e),
+                                                         ", start(fast=False)" if len(e) > 3 and e[3] == "slow" else "",
+                                                         "; ".join(OPS[o][2] for o in e[1]) or "returns at once"))
   return " | ".join(out)
 
 
@@ -338,6 +408,8 @@ class Rec (object):
     self.created = None
     self.cancel_seq = None      # seq of an external cancel()
     self.self_cancel_seq = None
+    self.period = 1             # the Timer's timeToWake (relative timers)
+    self.first = None           # the instant an absolute-time Timer was set for
 
 
 class World (object):
@@ -366,9 +438,13 @@ class World (object):
     self.fd_at = None             # part 2: readiness offsets fixed by the program instead of explored
     self.crashed = False          # what a task raised ended Scheduler.run()
     self.late = ()                # part 2: entities that are not started at build time (another thread starts them)
+    self.hung = False             # the scheduler thread blocked for good in its wake-up pipe
+    self.vos = None               # the virtual os the library's pinger runs on
+    self.max_steps = MAX_STEPS; self.max_selects = MAX_SELECTS
 
   # ---- recording ----------------------------------------------------------------------------
   def fail (self, clause, what):
+    if self.hung: return          # (the scheduler thread is stuck for good: what the harness unwinds through after that means nothing)
     if clause not in self.bad_keys:
       self.bad_keys.add(clause)
       self.bad.append((clause, what))
@@ -408,8 +484,8 @@ class World (object):
     if self.on_sched_thread is not None and not self.on_sched_thread():
       self.fail("thread:step-ran-off-the-scheduler-thread", "%s ran on a thread other than the scheduler's" % who)
     self.nsteps += 1
-    if self.nsteps > MAX_STEPS:
-      self.abort = "runaway"; raise Abort()
+    if self.nsteps > self.max_steps:
+      self.abort = self.abort or "runaway"; raise Abort()
     self.seq += 1
 
   def end (self):
@@ -451,7 +527,7 @@ class World (object):
         else:
           at = FD_AT[self.ctx.choose(len(FD_AT), "fd@%s" % r.name, costly=False)]
         r.fd = VFd(self, r.name, None if at is None else T0 + at)
-    for r in self.recs:
+    for r, e in zip(self.recs, self.prog):
       if r.kind == "t":
         if r.idx == 0:
           r.style = "subclass"
@@ -463,7 +539,7 @@ class World (object):
           r.state = "unstarted"
         else:
           r.state = "ready"
-          r.obj.start(sch, priority=r.prio, fast=True)
+          r.obj.start(sch, priority=r.prio, fast=not (len(e) > 3 and e[3] == "slow"))     # ("slow": through Scheduler.schedule())
       else:
         recurring, expect, _ = TIMERS[r.spec]
         r.created = self.now()
@@ -471,7 +547,19 @@ class World (object):
         if r.spec == "nostop": kw["selfStoppable"] = False
         if r.spec in ("parked", "parkedrec"):
           kw["started"] = False; r.created = None        # the deadline counts from start()
-        r.obj = R.Timer(1, _make_cb(self, r), **kw)
+        when = 1
+        p = TPARAM.get(r.spec)
+        if p is not None:
+          when = r.period = p["period"]
+          if p["absolute"] is not None:
+            when = r.first = T0 + 1 if p["absolute"] == "T0+1" else self.now() + p["absolute"]
+            kw["absoluteTime"] = True
+          if p["stop"] and p["stop"][1] == "nostop": kw["selfStoppable"] = False
+          if p["parked"]:
+            kw["started"] = False; r.created = None
+          if p["args"]:
+            kw["args"] = (("token", r.idx),); kw["kw"] = {"k": ("token", r.idx)}
+        r.obj = R.Timer(when, _make_cb(self, r, bool(p and p["args"])), **kw)
         r.state = "timer"
         if r.spec == "pre":
           r.obj.cancel()
@@ -499,7 +587,7 @@ class World (object):
           self.sch.schedule(o.obj)           # already runnable: must be a no-op
     elif kind == "start":
       for o in self.recs:
-        if o.kind == "T" and o.created is None and o.cancel_seq is None:
+        if o.kind == "T" and o.created is None:            # (also one that was cancel()led before: it must never fire)
           o.created = self.now()
           o.obj.start(self.sch)
     elif kind == "cancel":
@@ -510,7 +598,7 @@ class World (object):
     self.consume(label)
     ty = self.now()
     if kind in ("resched", "wake", "cancel", "start"):
-      r.state = "ready"; return 0
+      r.state = "ready"; return 0 if arg is None else arg
     if kind == "num":
       r.req = ty + arg; r.state = "timed"; return arg
     if kind == "block":
@@ -663,18 +751,19 @@ class World (object):
     if r.created is None:
       self.fail("timer:fired-before-start", "%s (%s) called back although it was never started" % (r.name, TIMERS[r.spec][2]))
     elif n == 1:
-      if now < r.created + 1:
-        self.fail("timed-wake-early:Timer", "%s fired at +%s, set for +%s" % (r.name, now - T0, r.created + 1 - T0))
+      due = r.first if r.first is not None else r.created + r.period
+      if now < due:
+        self.fail("timed-wake-early:Timer", "%s (%s) fired at +%s, set for +%s" % (r.name, TIMERS[r.spec][2], now - T0, due - T0))
     else:
-      if now < r.fires[-2][1] + 1:
-        self.fail("timed-wake-early:Timer", "%s fired again at +%s, %s after its previous fire (interval 1)"
-                  % (r.name, now - T0, now - r.fires[-2][1]))
+      if now < r.fires[-2][1] + r.period:
+        self.fail("timed-wake-early:Timer", "%s (%s) fired again at +%s, %s after its previous fire (interval %s)"
+                  % (r.name, TIMERS[r.spec][2], now - T0, now - r.fires[-2][1], r.period))
     if r.cancel_seq is not None or r.spec == "pre":
       self.fail("timer:fired-after-cancel", "%s (%s) called back after cancel()" % (r.name, TIMERS[r.spec][2]))
     elif r.self_cancel_seq is not None:
       self.fail("timer:fired-after-cancel", "%s (%s) called back after its callback cancelled it" % (r.name, TIMERS[r.spec][2]))
     elif n > expect:
-      self.fail("timer:extra-fire:" + r.spec, "%s (%s) called back %d times" % (r.name, TIMERS[r.spec][2], n))
+      self.fail("timer:extra-fire:" + timer_key(r.spec), "%s (%s) called back %d times" % (r.name, TIMERS[r.spec][2], n))
     rv = None
     if r.spec in TIMER_RAISES:
       try:
@@ -693,6 +782,16 @@ class World (object):
       rv = False
       if n >= 2:
         r.self_cancel_seq = self.seq; r.obj.cancel()
+    p = TPARAM.get(r.spec)
+    if p is not None:
+      if p["slow"]: self.advance(p["slow"])               # the callback itself takes that long
+      if p["stop"]:
+        sn, how = p["stop"]
+        if how == "nostop": rv = False                    # (ignored: selfStoppable=False)
+        if n >= sn:
+          if how == "false": rv = False
+          else:
+            r.self_cancel_seq = self.seq; r.obj.cancel()
     try:
       self.consume("%s.cb" % r.name)
     finally:
@@ -701,6 +800,7 @@ class World (object):
 
   # ---- oracle at the horizon ----------------------------------------------------------------------
   def at_horizon (self):
+    if self.hung: return          # (reported where it hung)
     if self.abort:
       self.fail("no-horizon:" + self.abort, "the run did not come to rest within %d steps / %d selects" % (MAX_STEPS, MAX_SELECTS))
       return
@@ -743,7 +843,7 @@ class World (object):
       else:
         recurring, expect, _ = TIMERS[r.spec]
         if r.cancel_seq is None and r.created is not None and len(r.fires) < expect:
-          self.fail("timer:missed-fire:" + r.spec, "%s (%s) called back %d times, expected %d"
+          self.fail("timer:missed-fire:" + timer_key(r.spec), "%s (%s) called back %d times, expected %d"
                     % (r.name, TIMERS[r.spec][2], len(r.fires), expect))
 
   def pending (self):
@@ -899,10 +999,14 @@ def _cb_func (w, r, i, arg):
   return ("cbval", r.idx, i)
 
 
-def _make_cb (w, r):
+def _make_cb (w, r, args=False):
   def cb ():
     return w.fired(r)
-  return cb
+  def cb_args (a, k):           # needs the positional and the keyword argument it was registered with
+    if not (a == k == ("token", r.idx)):
+      w.fail("timer:callback-args:wrong-arguments", "%s (%s) called back with (%r, k=%r)" % (r.name, TIMERS[r.spec][2], a, k))
+    return w.fired(r)
+  return cb_args if args else cb
 
 
 _CACHE = {}
@@ -947,6 +1051,99 @@ class _QuietTraceback (object):
 
 
 # ---------------------------------------------------------------------------------------------------
+# the wake-up pipe: the REAL pox.lib.util pinger (make_pinger() -> PipePinger: ping / pongAll / fileno) over a virtual os.pipe
+# ---------------------------------------------------------------------------------------------------
+VFD_BASE = 1 << 20          # descriptor numbers of virtual pipes (never mistaken for a real descriptor by a late __del__)
+PIPE_CAPACITY = 65536       # bytes a pipe holds before a write blocks (Linux default)
+
+class VPipe (object):
+  """A pipe of the virtual os: a byte count (every wake-up byte is the same), a capacity, blocking flags per end."""
+  def __init__ (self, vos, k):
+    self.vos = vos
+    self.rfd = VFD_BASE + 2 * k; self.wfd = self.rfd + 1
+    self.n = 0                  # bytes buffered
+    self.r_blocking = True; self.w_blocking = True
+    self.written = 0
+    self.reads = []             # (bytes pending, bytes asked for) per read: what the evidence reports as the boundary reached
+  # what the virtual select / the scripted epoll object ask of the read end
+  def fileno (self): return self.rfd
+  def readable (self): return self.n > 0
+  def writable (self): return False
+  def errored (self): return False
+  def __repr__ (self): return "<vpipe %d: %d bytes>" % (self.rfd - VFD_BASE, self.n)
+
+
+class VOs (object):
+  """Stands in for the `os` module inside pox.lib.util: pipe() / read() / write() / close() / set_blocking() on virtual
+  pipes, everything else is the real module.  How a read of an empty pipe / a write to a full one waits is up to the
+  world: `wait(pipe, "read"|"write")` returns when the operation can proceed (controlled threads), or never returns
+  (inline hub: the only thread that could make it proceed is the caller itself - the scheduler hangs)."""
+  name = "posix"
+  def __init__ (self, w, wait, point=None):
+    self.w = w; self.wait = wait; self.point = point or (lambda what: None)
+    self.pipes = []
+    self.by_fd = {}
+  def pipe (self):
+    p = VPipe(self, len(self.pipes))
+    self.pipes.append(p)
+    self.by_fd[p.rfd] = p; self.by_fd[p.wfd] = p
+    self.w.fdmap[p.rfd] = p
+    return p.rfd, p.wfd
+  def write (self, fd, data):
+    p = self.by_fd.get(fd)
+    if p is None:
+      if fd >= VFD_BASE: raise OSError(9, "Bad file descriptor")
+      return _real_os.write(fd, data)
+    if fd != p.wfd: raise OSError(9, "Bad file descriptor (write to the read end of a pipe)")
+    self.point("ping pinger")
+    n = len(data)
+    if n == 0: return 0
+    if p.n >= PIPE_CAPACITY:
+      if not p.w_blocking: raise BlockingIOError(11, "Resource temporarily unavailable")
+      self.wait(p, "write")
+    k = min(n, PIPE_CAPACITY - p.n)
+    p.n += k; p.written += k
+    return k
+  def read (self, fd, n):
+    p = self.by_fd.get(fd)
+    if p is None:
+      if fd >= VFD_BASE: raise OSError(9, "Bad file descriptor")
+      return _real_os.read(fd, n)
+    if fd != p.rfd: raise OSError(9, "Bad file descriptor (read from the write end of a pipe)")
+    self.point("pong pinger")
+    if len(p.reads) < 64: p.reads.append((p.n, n))
+    if n <= 0: return b""
+    if p.n == 0:
+      if not p.r_blocking: raise BlockingIOError(11, "Resource temporarily unavailable")
+      self.wait(p, "read")
+    k = min(n, p.n)
+    p.n -= k
+    return b" " * k
+  def close (self, fd):
+    if fd >= VFD_BASE: return   # (possibly a pipe of an earlier execution, closed by a late __del__: numbers are re-used)
+    return _real_os.close(fd)
+  def set_blocking (self, fd, blocking):
+    p = self.by_fd.get(fd)
+    if p is None: return _real_os.set_blocking(fd, blocking)
+    if fd == p.rfd: p.r_blocking = bool(blocking)
+    else: p.w_blocking = bool(blocking)
+  def get_blocking (self, fd):
+    p = self.by_fd.get(fd)
+    if p is None: return _real_os.get_blocking(fd)
+    return p.r_blocking if fd == p.rfd else p.w_blocking
+  def __getattr__ (self, n):
+    return getattr(_real_os, n)
+
+
+def _real_pinger_factory (U):
+  """pox.lib.util's own pinger factory, whatever the harness (this one or another) has rebound makePinger to."""
+  f = _CACHE.get(("mkpinger", id(U)))
+  if f is None:
+    f = _CACHE[("mkpinger", id(U))] = U.make_pinger
+  return f
+
+
+# ---------------------------------------------------------------------------------------------------
 # PART 1: inline hub
 # ---------------------------------------------------------------------------------------------------
 class VClockX (object):
@@ -969,15 +1166,15 @@ class VSelect (object):
   def _ready (self, objs):
     out = []
     for o in objs:
-      if isinstance(o, self.pinger_cls):
-        if o.pings > 0: out.append(o)
-      elif isinstance(o, VFd):
+      if isinstance(o, self.pinger_cls):            # the library's pinger: readable when its pipe holds bytes
+        if self.w.fdmap[o.fileno()].readable(): out.append(o)
+      elif isinstance(o, (VFd, VPipe)):
         if o.readable(): out.append(o)
     return out
   def select (self, rl, wl, xl, timeout=None):
     w = self.w
     w.nselect += 1
-    if w.nselect > MAX_SELECTS or w.abort:
+    if w.nselect > w.max_selects or w.abort:
       w.abort = w.abort or "runaway"
       w.sch._hasQuit = True
       return [], [], []
@@ -1045,23 +1242,29 @@ def _mods ():
   return R, U
 
 
-def run_inline (ctx, prog, twin=None, epoll=False):
-  from mc.env import FakePinger as _FP
+def run_inline (ctx, prog, twin=None, epoll=False, big=None):
   R, U = _mods()
   clock = VClockX()
   R.threading = threading; R.Thread = threading.Thread; R.Queue = queue.Queue
   R.time = clock; R.CYCLE_MAXIMUM = 1e9
   R.traceback = _QUIET
-  w = World(ctx, prog, R, clock.time, "inline", twin=twin)
-  class FakePinger (_FP):                         # a pinger with a descriptor number of its own
-    def __init__ (self_):
-      _FP.__init__(self_); self_.fd = w.new_fileno(self_)
-    def fileno (self_): return self_.fd
-  U.makePinger = FakePinger
+  w = World(ctx, prog, R, clock.time, "inline", twin=twin, env_choices=big is None)
+  if big is not None:           # a large program of the wake-up-pipe part: fixed environment, larger caps
+    w.fd_at = big["fd_at"]; w.max_steps = big["max_steps"]; w.max_selects = big["max_selects"]
+  # the hub's pinger is the library's own (pox.lib.util.make_pinger -> PipePinger) on a virtual pipe.  A read of the
+  # empty pipe / a write to the full one would wait for another thread; here there is none: the scheduler hangs.
+  def hang (pipe, what):
+    w.fail("scheduler-hangs:" + ("read-of-the-empty-wake-up-pipe" if what == "read" else "write-to-the-full-wake-up-pipe"),
+           "the scheduler thread (inline select hub) blocks for good in a %s its wake-up pipe, which holds %d bytes; reads so far (pending, asked for): %r"
+           % ("read of" if what == "read" else "write to", pipe.n, pipe.reads[-4:]))
+    w.hung = True; w.abort = w.abort or "hang"
+    raise Abort()
+  w.vos = U.os = VOs(w, hang)
+  U.makePinger = _real_pinger_factory(U)
   def advance (d): clock.now += d
   w.advance = advance
   w.epoll = epoll
-  vs = VSelect(w, clock, _FP)
+  vs = VSelect(w, clock, U.Pinger)
   R.select = vs
   if epoll:
     import pox.lib.epoll_select as ES
@@ -1173,6 +1376,10 @@ def _prog_from_json (p):
   return tuple((e[0], tuple(e[1]) if isinstance(e[1], list) else e[1]) + tuple(e[2:]) for e in p)
 
 
+TPARAM_SUITE = ("%s, the Timer parameter lattice: period 0 / 0.0 / 0.5 / 2, one-shot and recurring (stopped on the n-th call by returning False / "
+                "by cancel() from the callback / with selfStoppable=False), callbacks slower than a zero period, absoluteTime at now-1 / now / now+1, "
+                "started=False, callbacks that need their args / kw")
+
 def inline_suites (cfg):
   """(name, ops, entities, cap on the total number of yields, deviation bound[, cap on the yields of one script])"""
   if cfg.quick:
@@ -1186,7 +1393,8 @@ def inline_suites (cfg):
             ("2 entities, <=3 yields, timers built with started=False and start()ed by a task", OPS_PARK, 2, 3, 1, 3, TIMERS_PARK),
             ("2 tasks, <=3 yields, epoll hub (use_epoll=True over a scripted epoll object)", OPS_EPOLL, 2, 3, 1, 3, False, False, dict(epoll=True)),
             ("2 entities, <=3 yields, what a step / a blocking operation's execute() / a timer callback / a sub-task raises: Exception, SystemExit, GeneratorExit, KeyboardInterrupt, other BaseException",
-             OPS_RAISE_CTX, 2, 3, 1, 3, TIMERS_RAISE)]
+             OPS_RAISE_CTX, 2, 3, 1, 3, TIMERS_RAISE),
+            (TPARAM_SUITE % "2 entities (>= 1 Timer), <=3 yields", OPS_TPARAM, 2, 3, 1, 3, TIMERS_PARAM, False, dict(need_timer=True))]
   return [("2 entities, <=4 yields", OPS_QUICK, 2, 4, 2),
           ("2 entities, <=6 yields (every ordered pair of scripts of <=3 yields)", OPS_QUICK, 2, 6, 0),
           ("2 entities, <=3 yields, extended vocabulary", OPS_QUICK + OPS_EXTRA, 2, 3, 1),
@@ -1202,7 +1410,9 @@ def inline_suites (cfg):
           ("2 tasks, <=4 yields, epoll hub (use_epoll=True over a scripted epoll object)", OPS_EPOLL, 2, 4, 2, 3, False, False, dict(epoll=True)),
           ("2 entities, <=4 yields, what a step / a blocking operation's execute() / a timer callback / a sub-task raises: Exception, SystemExit, GeneratorExit, KeyboardInterrupt, other BaseException",
            OPS_RAISE_CTX, 2, 4, 2, 3, TIMERS_RAISE),
-          ("3 entities, <=3 yields (<=2 each), what a step / a blocking operation's execute() / a timer callback / a sub-task raises", OPS_RAISE_CTX, 3, 3, 1, 2, TIMERS_RAISE)]
+          ("3 entities, <=3 yields (<=2 each), what a step / a blocking operation's execute() / a timer callback / a sub-task raises", OPS_RAISE_CTX, 3, 3, 1, 2, TIMERS_RAISE),
+          (TPARAM_SUITE % "2 entities (>= 1 Timer), <=3 yields", OPS_TPARAM, 2, 3, 2, 3, TIMERS_PARAM, False, dict(need_timer=True)),
+          (TPARAM_SUITE % "3 entities (>= 1 Timer), <=3 yields (<=2 each), blocked tasks woken by siblings", OPS_TPARAM + ("SN", "W"), 3, 3, 1, 2, TIMERS_PARAM, False, dict(need_timer=True))]
 
 
 # ---------------------------------------------------------------------------------------------------
@@ -1240,6 +1450,9 @@ THR_PROGRAMS = [
   ((("T", "slow2"), T("S2")), {}),
   # a timer built with started=False, start()ed by a task one second later
   ((("T", "parked"), T("n1", "St")), {}),
+  # a recurring timer of period 0 (fires on every pass of the hub until its callback returns False) next to a sleeper
+  ((("T", "rec0"), T("n1")), {}),
+  ((("T", "spin0"), T("n1", "C")), {"thorough": True}),
   # a timed wait expires while the scheduler thread is busy in a long step of another task that then asks for I/O
   ((T("Se1", "0"), T("Se")), {"step_time": {"T1.0": 2}}),
   # the epoll hub variant (Scheduler(use_epoll=True), EpollSelect over the scripted epoll object)
@@ -1283,6 +1496,14 @@ def _polling_select (thr):
   c = _CACHE.get(("psel", id(thr)))
   if c is None:
     class PollingCSelect (thr.CSelect):
+      fdmap = None
+      def _ready (self, r, w, x):
+        # (an object without readable() is the library's pinger: readable when its virtual pipe holds bytes)
+        fdmap = self.fdmap
+        ro = [o for o in r if (o.readable() if hasattr(o, "readable") else fdmap[o.fileno()].readable())]
+        wo = [o for o in w if getattr(o, "writable", lambda: False)()]
+        xo = [o for o in x if getattr(o, "errored", lambda: False)()]
+        return ro, wo, xo
       def select (self, r, w, x, timeout=None):
         if timeout is not None and timeout <= 0:
           r, w, x = list(r), list(w), list(x)
@@ -1310,6 +1531,7 @@ def run_threaded (ctx, prog, fd_at, funcs=HANDOFF, max_points=8000, keep_log=Fal
   w = World(ctx, prog, R, None, "threaded", env_choices=False)
   w.late = tuple(opts.get("late") or ())
   w.step_time = dict(opts.get("step_time") or {})
+  if opts.get("max_steps"): w.max_steps = opts["max_steps"]
   w.epoll = epoll
   S = thr.Sched(ctx, trace_files=("recoco/recoco.py",), trace_funcs=funcs, pending=w.pending, max_points=max_points)
   S.keep_log = keep_log
@@ -1319,12 +1541,15 @@ def run_threaded (ctx, prog, fd_at, funcs=HANDOFF, max_points=8000, keep_log=Fal
   TM = thr.CThreadingModule(S)
   R.threading = TM; R.Thread = TM.Thread; R.Queue = lambda: thr.CQueue(S)
   R.select = _polling_select(thr)(S); R.time = thr.CTime(S); R.CYCLE_MAXIMUM = 1e9
+  R.select.fdmap = w.fdmap
   R.traceback = _QUIET
-  class Pinger (thr.CPinger):                     # a pinger with a descriptor number of its own
-    def __init__ (self_):
-      thr.CPinger.__init__(self_, S); self_.fd = w.new_fileno(self_)
-    def fileno (self_): return self_.fd
-  U.makePinger = Pinger
+  # the hub's pinger is the library's own (pox.lib.util.make_pinger -> PipePinger) on a virtual pipe: every write / read
+  # is a scheduling point; a read of the empty pipe (a write to the full one) waits until another thread writes (reads)
+  def wait (pipe, what):
+    if what == "read": S.block(lambda: pipe.n > 0, what="read of empty pinger pinger")
+    else: S.block(lambda: pipe.n < PIPE_CAPACITY, what="write to full pinger pinger")
+  w.vos = U.os = VOs(w, wait, S.point)
+  U.makePinger = _real_pinger_factory(U)
   if epoll:
     import pox.lib.epoll_select as ES
     ES.select = VEpollModule(w, R.select.select)
@@ -1351,6 +1576,17 @@ def run_threaded (ctx, prog, fd_at, funcs=HANDOFF, max_points=8000, keep_log=Fal
   if v is not None and v[0] in ("harness-timeout", "leaked-threads"):
     w.harness_error = "threaded execution: %s: %s" % v          # the explorer's trouble, never a violation
     return w
+  if v is not None and v[0] in ("lost-wakeup", "deadlock"):
+    # work is pending and a thread sits in its wake-up pipe for good: one defect, one key (the same as with the inline hub)
+    # (the explorer's verdict names what every waiting thread waits for)
+    for what in ("read of empty pinger", "write to full pinger"):
+      if (" on " + what) in v[1]:
+        rd = what.startswith("read")
+        w.fail("scheduler-hangs:" + ("read-of-the-empty-wake-up-pipe" if rd else "write-to-the-full-wake-up-pipe"),
+               "work is pending, but a thread blocks for good in a %s the hub's wake-up pipe; reads so far (pending, asked for): %r; %s"
+               % ("read of" if rd else "write to", w.vos.pipes[0].reads[-4:], v[1]))
+        w.hung = True
+        break
   if v is None or v[0] in ("lost-wakeup", "deadlock"):
     w.at_horizon()
   if v is not None and not w.bad:
@@ -1460,6 +1696,156 @@ def run_threaded_part (cfg, rep, which=None):
 
 
 # ---------------------------------------------------------------------------------------------------
+# PART 4: the hub's wake-up pipe between two idles (inline hub, the library's own pinger)
+# ---------------------------------------------------------------------------------------------------
+# With the inline hub every fast_schedule() (a task start()ed, a blocked task schedule()d, a task returned by the hub) and
+# every registerSelect() (Sleep / number / Select / Recv / Send / a Timer's wait) writes one byte to the hub's pinger; the
+# bytes are read back (pongAll: one read of 1024) only when the scheduler goes idle.  Large programs of the same grammar
+# pile up N such wake-ups in one busy period, N over a boundary lattice around the multiples of the pinger's read size
+# and around the capacity of a pipe.
+PING_READ = 1024
+PING_FORMS = {
+  "start":    "N tasks that return at once, start()ed with fast=True (fast_schedule) before the scheduler runs",
+  "schedule": "N tasks that return at once, start()ed with fast=False (Scheduler.schedule) before the scheduler runs",
+  "wake":     "a task that blocks N times (yield False) and a task that wakes it N times (schedule(); yield 0)",
+  "sleep":    "N tasks that `yield 1` (inline hub: N start()s + N registrations pending at the first idle, N returns from the hub at +1)",
+  "select":   "N tasks that `yield Select([own fd], None, None, 1)`, no fd ever readable",
+  "timers":   "N one-shot Timer(1, cb)",
+}
+PING_WAITERS = {
+  "none": "nothing else",
+  "S2":   "a task [yield Sleep(2); yield 0]",
+  "Se":   "a task [yield Select([fd], None, None, None); yield 0], fd readable at +1.5",
+  "rec2": "a Timer(1, cb, recurring=True), cb returns False on its 2nd call",
+}
+PING_HUBS = {
+  "select":         "inline hub",
+  "epoll":          "inline hub, use_epoll=True",
+  "threaded":       "threaded hub (scheduler thread + hub thread under the controlled-thread explorer, default schedule: a thread runs until it blocks)",
+  "threaded-epoll": "threaded hub, use_epoll=True (default schedule)",
+}
+THR_PING_FORMS = ("sleep", "select", "timers")        # with the threaded hub only registrations write to the hub's pipe
+
+def ping_sizes (cfg, capacity=False, threaded=False):
+  """N: 0..3, and within -5..+1 of every multiple of half the read size up to 1 (quick) / 4 (thorough) read sizes (a task of
+  the forms `sleep` / `select` / `timers` writes two bytes before the first idle of the inline hub; the waiter and the fixed tasks of
+  a form add up to four), so that every count of pending bytes within +-1 of a multiple of the read size occurs in every form;
+  threaded hub: 1, 2 and within -3..+1 of the multiples of the read size up to 1 (quick) / 2 (thorough) read sizes; with
+  capacity=True within -5..+1 of the capacity of a pipe instead."""
+  if capacity: return [PIPE_CAPACITY + d for d in range(-5, 2)]
+  if threaded:
+    return [1, 2] + [m + d for m in range(PING_READ, cfg.pick(1, 2) * PING_READ + 1, PING_READ) for d in range(-3, 2)]
+  top = cfg.pick(1, 4) * PING_READ
+  return [0, 1, 2, 3] + [m + d for m in range(PING_READ // 2, top + 1, PING_READ // 2) for d in range(-5, 2)]
+
+
+def ping_cases (cfg):
+  """(form, N, waiter, hub)"""
+  out = []
+  for form in PING_FORMS:
+    for waiter in PING_WAITERS:
+      if cfg.quick and form in ("timers", "schedule", "select") and waiter not in ("none", "S2"): continue
+      for n in ping_sizes(cfg):
+        out.append((form, n, waiter, "select"))
+        if waiter == "Se" and (n > 3 or not cfg.quick): out.append((form, n, waiter, "epoll"))
+  for waiter in ("none", "S2"):
+    for n in ping_sizes(cfg, capacity=True):
+      out.append(("wake", n, waiter, "select"))
+  for form in THR_PING_FORMS:
+    for waiter in ("none", "S2"):
+      for n in ping_sizes(cfg, threaded=True):
+        out.append((form, n, waiter, "threaded"))
+        if form == "select" and waiter == "S2": out.append((form, n, waiter, "threaded-epoll"))
+  return out
+
+
+def ping_prog (form, n, waiter):
+  """The program (every task with priority 1) and its fixed environment."""
+  prog = []; fd_at = {}
+  if waiter == "S2": prog.append(("t", ("S2", "0"), 1))
+  elif waiter == "Se":
+    prog.append(("t", ("Se", "0"), 1)); fd_at[0] = 1.5
+  elif waiter == "rec2": prog.append(("T", "rec2"))
+  if form == "start": prog += [("t", (), 1)] * n
+  elif form == "schedule": prog += [("t", (), 1, "slow")] * n
+  elif form == "wake": prog += [("t", ("F",) * n, 1), ("t", ("W",) * n, 1)]
+  elif form == "sleep": prog += [("t", ("n1",), 1)] * n
+  elif form == "select": prog += [("t", ("Se1",), 1)] * n
+  elif form == "timers": prog += [("T", "once")] * n
+  else: raise ValueError(form)
+  return tuple(prog), fd_at
+
+
+def ping_text (form, n, waiter, hub):
+  return "%s, N=%d, next to %s; %s" % (PING_FORMS[form], n, PING_WAITERS[waiter], PING_HUBS[hub])
+
+
+def run_ping_case (form, n, waiter, hub):
+  prog, fd_at = ping_prog(form, n, waiter)
+  ctx = Ctx([])
+  if hub.startswith("threaded"):
+    opts = dict(fd_at); opts["max_steps"] = 8 * n + 200
+    if hub.endswith("epoll"): opts["epoll"] = True
+    gc.disable()
+    try:
+      return run_threaded(ctx, prog, opts, HANDOFF, max_points=400 * n + 8000)
+    finally:
+      gc.collect(); gc.enable()
+  return run_inline(ctx, prog, epoll=hub == "epoll", big=dict(fd_at=fd_at, max_steps=8 * n + 200, max_selects=2 * n + 300))
+
+
+def _ping_worker (item):
+  t_cpu = time.process_time()
+  rep = Report(PID, "model_checking")
+  old = sys.stdout, sys.stderr
+  sys.stdout = sys.stderr = _Null()
+  pend = set()
+  try:
+    for form, n, waiter, hub in item:
+      w = run_ping_case(form, n, waiter, hub)
+      rep.evaluations += 1
+      rep.transitions += w.nsteps + (w.nselect if w.mode == "inline" else w.S.points)
+      if getattr(w, "harness_error", None):
+        rep.error("%s [%s]" % (w.harness_error, ping_text(form, n, waiter, hub)))
+      reads = tuple(w.vos.pipes[0].reads)
+      pend.update((hub.startswith("threaded"), b) for b, k in reads)
+      rep.outcome(("ping", form, n, waiter, hub, reads, w.observation(), tuple(k for k, _ in w.bad)))
+      if w.bad:
+        _violation(rep, w, dict(part="pinger", form=form, n=n, waiter=waiter, hub=hub))
+      elif not rep.samples and n >= PING_READ - 5 and waiter != "none":
+        rep.sample(dict(part="wake-up pipe of the hub", program=ping_text(form, n, waiter, hub),
+                        reads_of_the_pipe_pending_asked=[list(x) for x in reads[:8]],
+                        observed=["%d steps" % w.nsteps] + [l[:300] for l in w.text().split("\n")[-2:]]))
+  finally:
+    sys.stdout, sys.stderr = old
+  rep.extra["programs_pinger"] = rep.evaluations
+  rep.extra["cpu_ms_pinger"] = int((time.process_time() - t_cpu) * 1000)
+  rep.extra["_pending"] = sorted(pend)
+  return rep
+
+
+def run_ping_part (cfg, rep):
+  cases = ping_cases(cfg)
+  # the large cases first, one per work item; the small ones in chunks
+  cases.sort(key=lambda c: (-c[1], c))
+  items = [[c] for c in cases if c[1] > 4 * PING_READ]
+  small = [c for c in cases if c[1] <= 4 * PING_READ]
+  nchunks = max(1, cfg.workers * 4)
+  items += [small[i::nchunks] for i in range(nchunks) if small[i::nchunks]]
+  pend = set()
+  for r in pmap(_ping_worker, items, cfg.workers, seed=cfg.seed):
+    pend.update(r.extra.pop("_pending", ()))
+    rep.merge(r)
+  def near (thr):
+    return sorted(b for t, b in pend if t == thr and (b <= 3 or min(b % PING_READ, PING_READ - b % PING_READ) <= 1))
+  return dict(programs=len(cases), forms=PING_FORMS, next_to=PING_WAITERS, hubs=PING_HUBS, forms_with_the_threaded_hub=list(THR_PING_FORMS),
+              sizes=ping_sizes(cfg), sizes_at_capacity=ping_sizes(cfg, capacity=True), sizes_threaded=ping_sizes(cfg, threaded=True),
+              read_size=PING_READ, pipe_capacity=PIPE_CAPACITY,
+              bytes_pending_at_a_read_within_1_of_a_multiple_of_the_read_size=dict(inline=near(False), threaded=near(True)),
+              distinct_pending_counts=len(pend))
+
+
+# ---------------------------------------------------------------------------------------------------
 # PART 3: the hub's alternative select function (pox.lib.epoll_select.EpollSelect) against select.select
 # ---------------------------------------------------------------------------------------------------
 def run_epoll_part (cfg, rep):
@@ -1534,12 +1920,16 @@ def run (cfg):
   if only and only.startswith("inline:"):      # debugging aid: a 1/N subsample of the inline programs
     _STRIDE = int(only.split(":")[1]); only = "inline"
     rep.caps.append("debug subsample 1/%d of the inline programs" % _STRIDE)
+  one_suite = None
+  if only and only.startswith("suite:"):       # debugging aid: one inline suite only (index into inline_suites)
+    one_suite = int(only.split(":")[1]); only = "inline"
   if only in (None, "inline"):
-    for su in suites:
+    for si, su in enumerate(suites):
+      if one_suite is not None and si != one_suite: continue
       name, ops, nent, total, dev = su[:5]
       opts = su[-1] if isinstance(su[-1], dict) else {}
       _EPOLL = bool(opts.get("epoll"))
-      _SPACE = ProgSpace(ops, nent, total, *[a for a in su[5:] if not isinstance(a, dict)])
+      _SPACE = ProgSpace(ops, nent, total, *[a for a in su[5:] if not isinstance(a, dict)], need_timer=bool(opts.get("need_timer")))
       counts[name] = len(_SPACE)
       nchunks = max(1, cfg.workers * 8)
       items = [(i, nchunks, dev, name) for i in range(nchunks)]
@@ -1553,27 +1943,33 @@ def run (cfg):
   if only in (None, "threaded"):
     pts = run_threaded_part(cfg, rep, which)
   del rep.samples[5:]
+  ping_bound = None
+  if only in (None, "pinger"):
+    ping_bound = run_ping_part(cfg, rep)
   epoll_depth = None
   if only in (None, "epoll"):
     epoll_depth = run_epoll_part(cfg, rep)
   rep.state_count = rep.evaluations
-  for k in ("cpu_ms_inline", "cpu_ms_threaded"):
+  for k in ("cpu_ms_inline", "cpu_ms_threaded", "cpu_ms_pinger"):
     if k in rep.extra: rep.extra[k.replace("cpu_ms", "cpu_s")] = round(rep.extra.pop(k) / 1000.0, 1)
   rep.bound = dict(inline_suites=[dict(name=n, vocabulary=list(o), entities=e, total_yields=t, deviations=d, programs=counts.get(n))
                                   for n, o, e, t, d in [x[:5] for x in suites]],
                    threaded=[dict(funcs="hand-off functions" if f else "every line of recoco.py", deviations=b) for f, b in threaded_configs(cfg)],
                    threaded_programs=["%d: %s%s" % (pi, prog_text(THR_PROGRAMS[pi][0]), "".join("; %s=%r" % kv for kv in sorted((str(k), v) for k, v in THR_PROGRAMS[pi][1].items() if k != "thorough")))
                                       for pi in thr_programs(cfg)],
-                   threaded_points=pts, epoll_select_call_sequences_depth=epoll_depth)
+                   threaded_points=pts, epoll_select_call_sequences_depth=epoll_depth, wake_up_pipe=ping_bound)
   rep.rule = ("PART 1 (inline hub): every ordered tuple of entities within the suites listed under `bound` - an entity is a task "
-              "(generator script of <=3 yields over the vocabulary: yield 0 / 1 / Sleep(2) / Sleep(None) / False / Select([fd],timeout None|1) / "
+              "(generator script of <=3 yields over the vocabulary: yield 0 / 0.0 / 1 / -1 / Sleep(2) / Sleep(None) / False / Select([fd],timeout None|1) / "
               "Again or task_function with a sub-task that yields a value | sleeps then yields | raises | returns before yielding | is a plain "
               "function | itself calls an inner sub-task (value, exception caught or not, before/after a sleep) / Sleep(0) and absolute-time Sleeps at now-1, now, now+1 / Send of 20000 or 5 bytes and Recv "
               "(timeout None|1) on the task's fake socket / wake the blocked siblings with schedule() / cancel the timers / Exit() / raise an Exception, SystemExit, "
               "GeneratorExit, KeyboardInterrupt or another non-Exception BaseException / yield a BlockingOperation whose execute() raises an Exception, SystemExit or "
               "other BaseException / Again(sub raising SystemExit)) or a Timer (one-shot, recurring "
               "self-stopping, cancelled before fire, cancelled by its callback, selfStoppable=False, callback taking the interval or longer, callback raising an "
-              "Exception / SystemExit, one-shot or recurring) - run on a real Scheduler.run() with a "
+              "Exception / SystemExit, one-shot or recurring; in the Timer-parameter suites: period 0 / 0.0 / 0.5 / 2 instead of 1, one-shot and recurring, the "
+              "recurring ones stopped on their 3rd (2nd, 5th) call by the callback returning False / cancelling the timer / with selfStoppable=False, a callback "
+              "that takes 0.5 s under a period of 0, absoluteTime=True at now-1 / now / now+1 and with started=False, a zero-period timer with started=False, "
+              "callbacks that require the args / kw they were registered with) - run on a real Scheduler.run() with a "
               "virtual clock and virtual select up to the horizon; entity 0 is a Task subclass with priority 0.5, the others Task(target=) with "
               "priority 1, except in the priority suites where every assignment of {1,0.5} to the tasks is enumerated; "
               "environment: fd readiness instant {never,+0.5,+1.5} per selecting/receiving task (all explored); deviations (bounded): a run of "
@@ -1587,7 +1983,14 @@ def run (cfg):
               "Scheduler.schedule(blocked task) or Task.start(fast=True|False) of a new task, at once or at +1 s while the hub waits for a timer; an execution in "
               "which work is pending and only a polling timeout (CYCLE_MAXIMUM) or nothing at all could wake the scheduler is a lost wake-up.  PART 3: every sequence "
               "of <=2 (thorough 3) select(rl, wl, [], 0) calls on one EpollSelect (the hub's use_epoll select function), rl/wl over the subsets "
-              "of two real local sockets x each readable or not, against select.select.  distinct = distinct (per-entity step "
+              "of two real local sockets x each readable or not, against select.select.  PART 4 (the hub's wake-up pipe between two idles, inline hub): large "
+              "programs of the same grammar that pile up N wake-up bytes in one busy period - N tasks start()ed at once / a task woken N times by a sibling / N tasks "
+              "that sleep 1 s / N one-shot Timers - next to nothing / a sleeper / a task selecting on an fd / a recurring Timer, select and epoll hub, N over "
+              "0..3 and every value within -5..+1 of each multiple of 512 up to the bound (so that every count of pending bytes within 1 of a multiple of the "
+              "pinger's read size 1024 occurs, see bound.wake_up_pipe) and, for the wake form, within -5..+1 of a pipe's capacity (65536).  In PARTS 1, 2 and 4 the "
+              "hub's pinger is the library's own (pox.lib.util.make_pinger -> PipePinger.ping / pongAll / fileno) on a virtual os.pipe (byte count, capacity "
+              "65536, blocking ends): a read of the empty pipe / a write to the full one waits for another thread (PART 2: a scheduling point; inline hub on the "
+              "calling thread: nobody else can make it proceed, the scheduler hangs).  distinct = distinct (per-entity step "
               "times, received values, final states, verdict)" % len(thr_programs(cfg)))
   rep.assumptions = ["each selecting task has its own fd; an fd stays readable once readable",
                      "run() executes on the scheduler's own thread (Scheduler._thread), as in POX",
@@ -1595,8 +1998,12 @@ def run (cfg):
                      "what a task raises is reported on a working stdout / logger (a failing report channel is not an input)",
                      "cross-thread wake-ups: one waker per blocked task (fast_schedule() of the same task from two threads is documented as racy); "
                      "callLater and several threads waking the same task are C07's subject",
-                     "threaded part: modelled Event/Queue/select/pinger semantics of mc/thr.py, CPython-atomic deque/dict operations, "
-                     "no partial-order reduction (counts are schedules)"]
+                     "threaded part: modelled Event/Queue/select semantics of mc/thr.py, CPython-atomic deque/dict operations, "
+                     "no partial-order reduction (counts are schedules)",
+                     "the wake-up pipe is a model of a Linux pipe: capacity 65536 bytes, one-byte writes are never partial, both ends blocking unless "
+                     "os.set_blocking() says otherwise (then EAGAIN); os.name is 'posix' (the socket-pair pinger of other platforms is not exercised)",
+                     "a recurring Timer of period 0 is observed until its callback stops it (3 or 5 calls); virtual time passes only where a step or a callback "
+                     "is scripted to take time"]
   return rep
 
 
@@ -1629,6 +2036,17 @@ def replay_epoll (data):
 
 def replay (cfg, data):
   if data.get("part") == "epoll": return replay_epoll(data)
+  if data.get("part") == "pinger":
+    old = sys.stdout, sys.stderr
+    sys.stdout = sys.stderr = _Null()
+    try:
+      w = run_ping_case(data["form"], data["n"], data["waiter"], data["hub"])
+    finally:
+      sys.stdout, sys.stderr = old
+    lines = w.text().split("\n")
+    return bool(w.bad), "\n".join([ping_text(data["form"], data["n"], data["waiter"], data["hub"]),
+                                   "  reads of the wake-up pipe (bytes pending, bytes asked for): %r" % (w.vos.pipes[0].reads[:16],),
+                                   "  %d steps" % w.nsteps] + [l[:400] for l in lines[-3:]]) + "\n=> %r" % (w.bad,)
   prog = _prog_from_json(data["prog"])
   old = sys.stdout, sys.stderr
   sys.stdout = sys.stderr = _Null()
